@@ -143,6 +143,24 @@ func readerFiles(c *driverCtx, withLarge bool) []readerFile {
 			}
 		}
 	}
+	// records of constant width (floats, booleans, fixed only) in blocks well over 64 KiB: a reader that works
+	// through such a block in slices must still not deliver any of it before all of it is there
+	{
+		ft := staticOf[WFixedWidth]("WFixedWidth")
+		vals := make([]reflect.Value, 3510)
+		for i := range vals {
+			p := reflect.New(ft.typ)
+			p.Elem().Set(reflect.ValueOf(WFixedWidth{A: float64(i) / 3, B: float32(i), C: i%3 == 0, N: WFixedInner{X: float64(-i), Y: i%2 == 0}}))
+			vals[i] = p.Elem()
+		}
+		w := &recWriter{}
+		cfg := rtConfig{Codec: "null", Block: 1 << 30, Flush: map[int]bool{9: true}}
+		if err, p := safeMake(ft.mk, w, cfg, vals); err != nil || p != "" {
+			panic(fmt.Sprintf("harness: cannot write the fixed-width file: %v %s", err, p))
+		} else {
+			out = append(out, readerFile{name: "fixed-width-records", codec: "null", bytes: w.out, inputs: vals, typ: ft.typ})
+		}
+	}
 	// files no writer of this library would produce but any conformant writer may: blocks declaring zero records
 	// (empty payload) between ordinary blocks, at the start and at the end
 	for _, codec := range codecs3 {
@@ -229,7 +247,7 @@ func driveC08(c *driverCtx) error {
 		if n > 700 {
 			step = c.pick(n/200, n/1500+1)
 		}
-		if n > 1<<20 {
+		if n > 1<<20 || rf.name == "fixed-width-records" {
 			step = n // only the cuts near field and chunk boundaries
 		}
 		// every cut for ordinary files; for the large ones every cut near a field boundary plus a stride
@@ -239,6 +257,12 @@ func driveC08(c *driverCtx) error {
 				for _, p := range []int{b.Start, b.LenAt, b.DataAt, b.SyncAt, b.End, f.HeaderEnd} {
 					for d := -2; d <= 2; d++ {
 						important[p+d] = true
+					}
+				}
+				for k := 1; k<<16 < len(b.Payload) && k <= 3; k++ {
+					for d := -1; d <= 1; d++ {
+						important[b.DataAt+k<<16+d] = true // 64 KiB steps into a large payload
+						important[b.DataAt+k<<16+d+3000] = true
 					}
 				}
 				for k := 1; k<<20 < len(b.Payload); k++ {
@@ -266,6 +290,9 @@ func driveC07(c *driverCtx) error {
 	typ := reflect.TypeFor[RRec]()
 	files := readerFiles(c, true)
 	for fi, rf := range files {
+		if rf.name == "fixed-width-records" {
+			continue // C08's file
+		}
 		if rf.name == "over1MiB" || rf.name == "len3bytes" || (rf.name == "count64" && !c.thorough()) {
 			// bit flips over large payloads add nothing but volume (truncation of those is C08's business); the
 			// intact file must still deliver exactly its records (a block larger than the reader's 1 MiB chunk)
